@@ -18,12 +18,14 @@ import (
 	"github.com/hujm2023/go-sms-protocol/smgp/smgp30"
 	"pgregory.net/rapid"
 
+	"verifharness/gen"
 	"verifharness/vk"
 )
 
 var rec = vk.NewRecorder("C15")
 
 func TestMain(m *testing.M) {
+	vk.Disturb = gen.Disturb
 	code := m.Run()
 	rec.Flush("all")
 	os.Exit(code)
@@ -222,10 +224,21 @@ type CtorCase struct {
 	Which   string `json:"which"`
 	Account string `json:"account"`
 	Secret  string `json:"secret"`
+	// the constructors read the wall clock in the process time zone themselves; 1..12 moves the process
+	// zone (time.Local, a fixed zone) so that the local date falls on the 15th of that month, 0 leaves it
+	LocalMonth int `json:"local_month,omitempty"`
+	LocalHour  int `json:"local_hour,omitempty"`
 }
 
 // constructors take the clock themselves: recompute from the timestamp they put in the PDU
 func checkCtor(c CtorCase) *vk.Violation {
+	if c.LocalMonth >= 1 && c.LocalMonth <= 12 {
+		now := time.Now().UTC()
+		want := time.Date(now.Year(), time.Month(c.LocalMonth), 15, c.LocalHour%24, now.Minute(), now.Second(), 0, time.UTC)
+		saved := time.Local
+		time.Local = time.FixedZone("P", int(want.Sub(now)/time.Second))
+		defer func() { time.Local = saved }()
+	}
 	switch c.Which {
 	case "cmpp20.NewConnect":
 		p := cmpp20.NewConnect(c.Account, c.Secret, 7)
@@ -359,6 +372,14 @@ func TestConstructors(t *testing.T) {
 	rapid.Check(t, func(t *rapid.T) {
 		c := CtorCase{Which: rapid.SampledFrom([]string{"cmpp20.NewConnect", "smgp30.NewLogin"}).Draw(t, "which"),
 			Account: rapid.StringMatching(`[0-9a-zA-Z:|/ ]{0,6}`).Draw(t, "account"), Secret: rapid.StringMatching(`[ -~]{0,32}`).Draw(t, "secret")}
+		if c.Which == "smgp30.NewLogin" && rapid.Bool().Draw(t, "longid") {
+			c.Account = rapid.StringMatching(`[0-9]{7,8}`).Draw(t, "account8")
+		}
+		if rapid.IntRange(0, 1).Draw(t, "shiftmonth") == 0 {
+			c.LocalMonth = rapid.IntRange(1, 12).Draw(t, "localmonth")
+			c.LocalHour = rapid.IntRange(0, 23).Draw(t, "localhour")
+			rec.Class("constructor_in_local_month:" + fmt.Sprintf("%02d", c.LocalMonth))
+		}
 		rec.Eval()
 		rec.Class("constructor:" + c.Which)
 		rec.ReportSeq(t, "ctor", c, func() *vk.Violation { return checkCtor(c) })
